@@ -79,7 +79,13 @@ def run_children(jobs, workdir, par=16, timeout=None):
         for (idx, j, p, out, sdir, started) in running:
             rc = p.poll()
             if rc is None:
-                if timeout and time.time() - started > timeout:
+                # progress heartbeat: the child rewrites <out>.progress every 25 executions
+                last = started
+                try:
+                    last = max(started, os.path.getmtime(out + ".progress"))
+                except OSError:
+                    pass
+                if timeout and time.time() - last > timeout:
                     p.kill()
                     p.communicate()
                     results.append((idx, j, None, "hung", sdir, ""))
@@ -263,10 +269,12 @@ def main():
     for k in range(nchild):
         s, v = splitmix(s)
         jobs.append(dict(scheduler="random" if k % 2 == 0 else "pct", seed=v & 0x7FFFFFFFFFFFFFFF, iters=iters,
-                         threads=[2, 3, 4][k % 3], ops=[1, 2, 3, 4][(k // 3) % 4]))
+                         threads=([2, 3, 4] if tier == "quick" else [2, 3, 4, 5, 6])[k % (3 if tier == "quick" else 5)],
+                         ops=[1, 2, 3, 4][(k // 3) % 4]))
     par = os.cpu_count() or 4
-    # a healthy child needs about 5 ms per execution; one that is far beyond that is not making progress
-    child_timeout = max(90.0, iters * 0.05)
+    # a healthy child completes 25 executions (one heartbeat) in about 0.15 s, far less even on a heavily loaded
+    # machine; one that shows no heartbeat for two minutes is not making progress
+    child_timeout = 120.0
     results = run_children(jobs, workdir, par, timeout=child_timeout)
     hung = [r for r in results if r[3] == "hung"]
     if hung:
